@@ -533,6 +533,37 @@ static void alloc_helpers_case(Rng &r) {
 }
 
 // expected<E, void>
+// ---- overloads that the operation sequences do not reach: construction from a const lvalue and from another type, comparisons with
+// the value on the left, value() on a const rvalue, FRG_TRY on an expected without a value
+static frg::expected<Err, int> try_void_helper(frg::expected<Err> in, int v) { FRG_TRY(in); return v; }
+static void optional_surface_case(Rng &r) {
+	int v = (int)r.below(1000), w = (int)r.below(1000);
+	g_elems.owner = "optional-surface";
+	{
+		const Elem ce(v);
+		frg::optional<Elem> o(ce); std::optional<int> so(v);
+		if(!o || o->get() != v || ce.get() != v) fail17("optional-surface", "optional<Elem>(const Elem &) does not hold a copy of its source (or changed the source)");
+		const frg::optional<Elem> co(ce);
+		if(std::move(co).value().get() != v || (*co).get() != v) fail17("optional-surface", "value() on a const rvalue optional");
+		frg::optional<long> ol(v); std::optional<long> sl(v);                // converting construction from int
+		if(!ol || *ol != (long)v) fail17("optional-surface", "optional<long>(int)");
+		frg::optional<Elem> oe(w);                                           // converting construction through Elem(int)
+		if(!oe || oe->get() != w) fail17("optional-surface", "optional<Elem>(int)");
+		frg::optional<int> fe, ff(v); std::optional<int> se, sf(v);
+		for(int x : {v - 1, v, v + 1}) {
+			if((x != ff) != (x != sf) || (x != fe) != (x != se)) fail17("optional-surface", strf("%d != optional disagrees with std::optional (engaged value %d)", x, v));
+			if((x < ff) != (x < sf) || (x < fe) != (x < se)) fail17("optional-surface", strf("%d < optional disagrees with std::optional (engaged value %d)", x, v));
+			if((x == ff) != (x == sf) || (x == fe) != (x == se)) fail17("optional-surface", strf("%d == optional disagrees with std::optional (engaged value %d)", x, v));
+			if((ff < x) != (sf < x) || (fe < x) != (se < x) || (ff != x) != (sf != x) || (fe != x) != (se != x)) fail17("optional-surface", strf("optional </!= %d disagrees with std::optional (engaged value %d)", x, v));
+		}
+	}
+	expect_no_elems("after the optional overload battery");
+	auto ok = try_void_helper(frg::expected<Err>(frg::success), v);
+	auto bad = try_void_helper(frg::expected<Err>(Err::e2), v);
+	if(!ok || ok.value() != v || bad || bad.error() != Err::e2) fail17("expected-void", "FRG_TRY on an expected without a value");
+	count("optional_surface_cases");
+}
+
 static void expected_void_case() {
 	using X = frg::expected<Err>;
 	X a; X b(frg::success); X e(Err::e2);
@@ -691,7 +722,7 @@ int main(int argc, char **argv) {
 			if(!want_case(i)) { r.next(); continue; }
 			begin_case("tuple", i);
 			Rng rr(r.next());
-			guarded(g_prop.c_str(), [&] { tuple_case(rr); alloc_helpers_case(rr); polymorphic_owner_case(rr); owner_inside_own_value_case(rr); });
+			guarded(g_prop.c_str(), [&] { tuple_case(rr); alloc_helpers_case(rr); polymorphic_owner_case(rr); owner_inside_own_value_case(rr); optional_surface_case(rr); });
 			note_distinct(mix(77, rr.s[1]));
 		}
 		begin_case("tuple", n);
